@@ -56,27 +56,15 @@ def prov(prog, trait, name):
 
 
 def rule_find_region(ctx, prog, eff):
+    """Outcome table of find_region, independent of its surface form (match / if let / early return / Option::map):
+      Some(&regions[i]) is returned only with i = the Ok index of the search, or i = x - 1 for the Err insertion point x under
+      exactly x > 0 and addr <= regions[x - 1].last_addr() (the index tested is the index returned); None otherwise."""
+    from .. import outcomes
     bs = prog.find(adt="mmap::GuestMemoryMmap", trait=GM, name="find_region")
     if len(bs) != 1:
         ctx.ob("R2.1.find_region", "GuestMemoryMmap::find_region", False, "", "anchor not found")
         return
     b = bs[0]
-    # result = Option::map(index, |x| self.regions[x].as_ref())
-    t = single(b)
-    env = {}
-    ok = t is not None and match(C("Option::map", V("idx"), CLO("clo")), t, env)
-    if ok:
-        cb, ct = closure_ret(prog, eff, env["clo"])
-        ok = ct is not None and match(C("AsRef::as_ref", C("Index::index", F(P(1), "regions"), P(2))), ct, {}) or \
-            (ct is not None and match(C("Deref::deref", C("Index::index", F(P(1), "regions"), P(2))), ct, {}))
-        ctx.ob("R2.2.returns_indexed_region", b.key, ok, b.where(), f"index -> region closure returns `{tstr(ct) if ct else '?'}`; required self.regions[index].as_ref()")
-    else:
-        ctx.ob("R2.2.returns_indexed_region", b.key, False, b.where(), f"returns `{tstr(t) if t else '?'}`; required index.map(|x| self.regions[x].as_ref())")
-        return
-    idx = env["idx"]
-    if idx[0] != 'var':
-        ctx.ob("R2.1.find_region", b.key, False, b.where(), "index is not a multi-arm variable")
-        return
     # search: binary_search_by_key(regions, &addr, |x| x.start_addr())
     bs_call = None
     for c in b.calls():
@@ -89,44 +77,99 @@ def rule_find_region(ctx, prog, eff):
         kok = ct is not None and match(C("GuestMemoryRegion::start_addr", ALT(C("Deref::deref", P(2)), P(2))), ct, {})
     ctx.ob("R2.1.search_key", b.key, bool(kok), b.where(), "lookup = regions.binary_search_by_key(&addr, |r| r.start_addr()) (search key must equal the sort key of C10 R10.3)")
     search = deep_strip(b.call_term(bs_call.t, bs_call.pos, 0)) if bs_call else None
-    arms = {"ok": False, "err": False, "none": 0}
-    for pos, dt in b.var_defs(idx[1]):
-        d = deep_strip(dt)
+    REGION = lambda i: ALT(C("AsRef::as_ref", C("Index::index", F(P(1), "regions"), i)), C("Deref::deref", C("Index::index", F(P(1), "regions"), i)))
+    LAST = lambda i: C("GuestMemoryRegion::last_addr", ALT(C("Deref::deref", C("Index::index", F(P(1), "regions"), i)), C("Index::index", F(P(1), "regions"), i)))
+    arms = {"ok": 0, "err": 0, "none": 0}
+    SWAPOP = {"Lt": "Gt", "Le": "Ge", "Gt": "Lt", "Ge": "Le", "Eq": "Eq", "Ne": "Ne"}
+
+    def classify_fact(r, x):
+        """'search' | 'gt0' | 'le_last' | 'eq0' | 'gt_last' | None(unrelated to the decision) | 'other:<txt>'"""
+        if r[0] == 'discr' and search is not None and unref(r[1]) == search:
+            return 'search'
+        if r[0] != 'cmp':
+            return 'other:' + tstr(r[1])[:60] if r[0] in ('bool',) else None
+        for (lhs, rhs, op) in ((r[2], r[3], r[1]), (r[3], r[2], SWAPOP[r[1]])):
+            lhs_, rhs_ = unref(lhs), unref(rhs)
+            if x is not None and lhs_ == x and rhs_[0] == 'const':
+                if (op == 'Gt' and rhs_[1] == 0) or (op == 'Ne' and rhs_[1] == 0) or (op == 'Ge' and rhs_[1] == 1):
+                    return 'gt0'
+                if (op == 'Eq' and rhs_[1] == 0) or (op == 'Le' and rhs_[1] == 0) or (op == 'Lt' and rhs_[1] == 1):
+                    return 'eq0'
+                return f'other:x {op} {rhs_[1]}'
+            e3 = {}
+            if lhs_[:2] == ('param', 2) and match(LAST(V("i")), rhs, e3):
+                same = x is not None and match(BIN("Sub", V("x"), K(1)), e3["i"], {"x": x})
+                if not same:
+                    return 'other:last_addr of a different index ' + tstr(e3["i"])
+                return {'Le': 'le_last', 'Gt': 'gt_last'}.get(op, f'other:addr {op} last_addr')
+        if r[1] == 'Ne' or r[1] == 'Eq':
+            return None
+        return 'other:' + tstr(r[2])[:40] + ' ' + r[1] + ' ' + tstr(r[3])[:40]
+
+    outs = outcomes.outcomes(prog, eff, b)
+    for pos, d in outs:
+        d = deep_strip(d)
+        facts = b.facts_at(pos)
         if d[0] == 'agg' and d[2] == 'None':
             arms["none"] += 1
             continue
-        if d[0] == 'agg' and d[2] == 'Some':
-            v = unref(d[3][0])
-            # Ok(x) arm
-            if v[0] == 'ok' and unref(v[1]) == search:
-                arms["ok"] = True
-                ctx.ob("R2.2.ok_arm", b.key, True, b.where(), "Ok(x) => Some(x): the matching index itself")
-                continue
-            # Err(x) arm: Some(x - 1)
-            e2 = {}
-            if match(BIN("Sub", V("x"), K(1)), v, e2):
-                x = e2["x"]
-                is_err = x[0] == 'vfield' and x[2] == 'Err' and unref(x[1]) == search
-                facts = b.facts_at(pos)
-                gt0 = any(r[0] == 'cmp' and r[1] == 'Gt' and r[2] == x and r[3] == ('const', 0) for r in facts)
-                # addr <= regions[x-1].last_addr()
-                le_ok = False
-                le_detail = "no comparison with last_addr found"
-                for r in facts:
-                    if r[0] != 'cmp':
-                        continue
-                    for (lhs, rhs, op) in ((r[2], r[3], r[1]), (r[3], r[2], {"Lt": "Gt", "Le": "Ge", "Gt": "Lt", "Ge": "Le", "Eq": "Eq", "Ne": "Ne"}[r[1]])):
-                        e3 = {}
-                        if match(C("GuestMemoryRegion::last_addr", ALT(C("Deref::deref", C("Index::index", F(P(1), "regions"), V("i"))), C("Index::index", F(P(1), "regions"), V("i")))), rhs, e3) and unref(lhs)[:2] == ('param', 2):
-                            same_idx = match(BIN("Sub", V("x"), K(1)), e3["i"], {"x": x})
-                            le_ok = op == "Le" and same_idx
-                            le_detail = f"addr {op} regions[{tstr(e3['i'])}].last_addr(), same index as returned: {same_idx}"
-                arms["err"] = True
-                ctx.ob("R2.1.err_arm", b.key, is_err and gt0 and le_ok, b.where(),
-                       f"Err(x) => Some(x - 1) requires x > 0 [{gt0}] and addr <= regions[x-1].last_addr() (inclusive last, POS <= LAST) [{le_detail}]")
-                continue
-        ctx.ob("R2.1.arm", b.key, False, b.where(), f"unrecognised arm `{tstr(d)}`")
-    ctx.ob("R2.1.arms_present", b.key, arms["ok"] and arms["err"] and arms["none"] >= 1, b.where(), f"arms: {arms}")
+        if not (d[0] == 'agg' and d[2] == 'Some'):
+            ctx.ob("R2.1.arm", b.key, False, b.where(), f"unrecognised return `{tstr(d)}`")
+            continue
+        e0 = {}
+        if not match(REGION(V("i")), unref(d[3][0]), e0):
+            ctx.ob("R2.2.returns_indexed_region", b.key, False, b.where(), f"returns `{tstr(d)}`; required Some(self.regions[index].as_ref())")
+            continue
+        v = unref(e0["i"])
+        if v[0] == 'ok' and unref(v[1]) == search:
+            kinds = [classify_fact(r, None) for r in facts]
+            extra = sorted({k for k in kinds if k and k != 'search'})
+            arms["ok"] += 1
+            ctx.ob("R2.2.ok_arm", b.key, 'search' in kinds and not extra, b.where(), f"Ok(x) => regions[x]: the matching index itself, under no further condition (extra: {extra})")
+            continue
+        e2 = {}
+        if match(BIN("Sub", V("x"), K(1)), v, e2):
+            x = e2["x"]
+            is_err = x[0] == 'vfield' and x[2] == 'Err' and unref(x[1]) == search
+            kinds = [classify_fact(r, x) for r in facts]
+            gt0, le_ok = 'gt0' in kinds, 'le_last' in kinds
+            extra = sorted({k for k in kinds if k and k not in ('search', 'gt0', 'le_last')})
+            arms["err"] += 1
+            ctx.ob("R2.1.err_arm", b.key, is_err and gt0 and le_ok and not extra, b.where(),
+                   f"Err(x) => regions[x - 1] requires exactly x > 0 [{gt0}] and addr <= regions[x-1].last_addr() (inclusive last; the index tested is the index returned) [{le_ok}]; other conditions on this path: {extra}")
+            continue
+        ctx.ob("R2.1.arm", b.key, False, b.where(), f"unrecognised index `{tstr(v)}`")
+    ctx.ob("R2.2.returns_indexed_region", b.key, arms["ok"] + arms["err"] >= 2, b.where(), "every Some(..) returned is self.regions[index].as_ref() for a classified index")
+    ctx.ob("R2.1.arms_present", b.key, arms["ok"] >= 1 and arms["err"] >= 1 and arms["none"] >= 1, b.where(), f"arms: {arms}")
+
+
+def rule_last_addr(ctx, prog, eff):
+    """GuestMemory::last_addr = max over ALL regions of region.last_addr(), starting from GuestAddress(0): either the
+    iterator form iter().map(last_addr).fold(GuestAddress(0), max) or the accumulator loop
+    `let mut m = GuestAddress(0); for r in self.iter() { m = max(m, r.last_addr()) } m` (left only when next() is None)."""
+    b = prov(prog, GM, "last_addr")
+    if b is None:
+        ctx.ob("R2.3.last_addr", "GuestMemory::last_addr", False, "", "anchor body not found")
+        return
+    FOLD = C("Iterator::fold", C("Iterator::map", C("GuestMemory::iter", P(1)), FN("GuestMemoryRegion::last_addr")), AGG("GuestAddress", None, K(0)), FN("cmp::max"))
+    t = single(b)
+    if t is not None and match(FOLD, t, {}):
+        ctx.ob("R2.3.last_addr", b.key, True, b.where(), f"returns `{tstr(t)}`")
+        return
+    ok = False
+    detail = "neither the fold form nor the accumulator loop"
+    raw = b.var_defs(0)
+    if len(raw) == 1 and deep_strip(raw[0][1])[0] == 'var':
+        acc = deep_strip(raw[0][1])
+        defs = [(p, deep_strip(d)) for p, d in b.var_defs(acc[1])]
+        NEXT = C("Iterator::next", ALT(C("IntoIterator::into_iter", C("GuestMemory::iter", P(1))), C("GuestMemory::iter", P(1))))
+        init = [d for _p, d in defs if match(AGG("GuestAddress", None, K(0)), d, {})]
+        upd = [d for _p, d in defs if match(C("cmp::max", K(acc) if False else V("acc"), C("GuestMemoryRegion::last_addr", OKP(NEXT))), d, {"acc": acc})]
+        exits = [r for r in b.facts_at(raw[0][0]) if r[0] == 'discr' and r[2] == 0 and match(NEXT, r[1], {})]
+        nloops = len(b.loops())
+        ok = len(defs) == 2 and len(init) == 1 and len(upd) == 1 and bool(exits) and nloops == 1
+        detail = f"accumulator loop: init GuestAddress(0) [{len(init) == 1}], update max(acc, region.last_addr()) for the iterator's next item [{len(upd) == 1}], left only when next() == None [{bool(exits)}], one loop [{nloops == 1}]"
+    ctx.ob("R2.3.last_addr", b.key, ok, b.where(), detail)
 
 
 def run(ctx, progs):
@@ -170,9 +213,7 @@ def run(ctx, progs):
                 ok = ct is not None and match(C("GuestMemoryRegion::check_address", P(1), AGG("MemoryRegionAddress", None, P(2))), ct, {})
             ctx.ob("R2.1.to_region_addr", b.key, ok, b.where(), f"returns `{tstr(t) if t else '?'}`; required addr.checked_offset_from(start_addr()).and_then(|o| check_address(MemoryRegionAddress(o)))")
         # ---------------- GuestMemory provided methods
-        D("R2.3.last_addr", prov(prog, GM, "last_addr"),
-          C("Iterator::fold", C("Iterator::map", C("GuestMemory::iter", P(1)), FN("GuestMemoryRegion::last_addr")), AGG("GuestAddress", None, K(0)), FN("cmp::max")),
-          want="iter().map(last_addr).fold(GuestAddress(0), max)")
+        rule_last_addr(ctx, prog, eff)
         b = prov(prog, GM, "to_region_addr")
         if not b:
             ctx.ob("C02.anchor", "prov(prog, GM, 'to_region_addr')", False, "", "anchor body not found (renamed or removed): the rule cannot be evaluated — fail closed")
